@@ -59,6 +59,13 @@ J_parseresp(e) ==
                 ELSE IF e.blen # -1 /\ e.blen # Len(cl.r.data) THEN "byte-length-field-differs"
                 ELSE IF e.reenc # e.frame THEN "reencoding-differs-from-frame"
                 ELSE "ok"
+           [] cl.kind = "oversize" ->
+                \* representable by the format but longer than any legal ADU: accepting it is not demanded, but a
+                \* parser that accepts it must still yield the frame's content and re-encode it byte for byte
+                IF e.entry \notin RespEntries(e.framing, cl.r.fc) \/ e.outcome # "ok" THEN "ok"
+                ELSE IF e.fields # cl.r THEN "decoded-fields-differ-from-frame"
+                ELSE IF e.reenc # e.frame THEN "reencoding-differs-from-frame"
+                ELSE "ok"
            [] cl.kind = "exception" ->
                 IF ~IsDispResp(e.entry) THEN "ok"
                 ELSE IF e.outcome # "err" THEN "exception-frame-returned-as-response"
